@@ -100,7 +100,41 @@ func cfm(what string, args ...any) *enum.Mismatch {
 
 var cfgDir string
 
+// A configuration file that names no setting comes in several forms, all of which must behave like no
+// file at all: absent, zero bytes, blank lines, comments only, an empty mapping.
+var noSettingForms = []struct{ name, content string }{
+	{"no file", ""}, {"zero-byte file", ""}, {"blank file", "\n  \n\n"}, {"comments-only file", "# nothing set here\n# port: 1\n"}, {"empty mapping", "{}\n"},
+}
+
+func noSettingFile(form int) (string, error) {
+	if form == 0 {
+		return "", nil
+	}
+	p := filepath.Join(cfgDir, fmt.Sprintf("empty%d.yaml", form))
+	return p, os.WriteFile(p, []byte(noSettingForms[form].content), 0o644)
+}
+
 func runConfig(states []int) *enum.Outcome {
+	if yamlFor(states) != "" {
+		return runConfigForm(states, 0)
+	}
+	total := &enum.Outcome{}
+	for form := range noSettingForms {
+		o := runConfigForm(append([]int(nil), states...), form)
+		total.Steps += o.Steps
+		total.Checks += o.Checks
+		if o.Mismatch != nil || o.Infra != "" {
+			if o.Mismatch != nil && form > 0 {
+				o.Mismatch.What += " [configuration file: " + noSettingForms[form].name + "]"
+			}
+			o.Steps, o.Checks = total.Steps, total.Checks
+			return o
+		}
+	}
+	return total
+}
+
+func runConfigForm(states []int, form int) *enum.Outcome {
 	o := &enum.Outcome{Steps: 1}
 	if cfgDir == "" {
 		d, err := os.MkdirTemp("", "verif-cfg-")
@@ -124,6 +158,13 @@ func runConfig(states []int) *enum.Outcome {
 			o.Infra = err.Error()
 			return o
 		}
+	} else {
+		f, err := noSettingFile(form)
+		if err != nil {
+			o.Infra = err.Error()
+			return o
+		}
+		file = f
 	}
 	expectErr := false
 	for i, s := range settings {
@@ -332,6 +373,25 @@ var valueTable = map[string][]envValue{
 
 // runValue: one setting's environment carries v, the other settings are all at the base state.
 func runValue(si int, v envValue, base int) *enum.Outcome {
+	if base != stAbsent {
+		return runValueForm(si, v, base, 0)
+	}
+	total := &enum.Outcome{}
+	for form := range noSettingForms {
+		o := runValueForm(si, v, base, form)
+		total.Steps += o.Steps
+		total.Checks += o.Checks
+		if o.Mismatch != nil || o.Infra != "" {
+			if o.Mismatch != nil && form > 0 {
+				o.Mismatch.What += " [configuration file: " + noSettingForms[form].name + "]"
+			}
+			return o
+		}
+	}
+	return total
+}
+
+func runValueForm(si int, v envValue, base int, form int) *enum.Outcome {
 	o := &enum.Outcome{Steps: 1}
 	if cfgDir == "" {
 		d, err := os.MkdirTemp("", "verif-cfg-")
@@ -357,6 +417,13 @@ func runValue(si int, v envValue, base int) *enum.Outcome {
 			o.Infra = err.Error()
 			return o
 		}
+	} else {
+		f, err := noSettingFile(form)
+		if err != nil {
+			o.Infra = err.Error()
+			return o
+		}
+		file = f
 	}
 	for i, s := range settings {
 		os.Unsetenv(s.env)
